@@ -714,6 +714,7 @@ type coScenario struct {
 	fails int
 	code  int
 	sse   bool
+	strict bool // StreamableClientTransport.strict
 }
 
 func (s *coScenario) op() string {
@@ -721,12 +722,15 @@ func (s *coScenario) op() string {
 	if s.sse {
 		e = "e"
 	}
+	if s.strict {
+		e += " strict=1"
+	}
 	return fmt.Sprintf("oscn mr=%d fails=%d ans=st%d%s", s.mr, s.fails, s.code, e)
 }
 
 func coParseScenario(line string) (*coScenario, error) {
 	toks := strings.Fields(line)
-	if len(toks) != 4 || toks[0] != "oscn" {
+	if len(toks) < 4 || toks[0] != "oscn" {
 		return nil, fmt.Errorf("not an oscn op")
 	}
 	s := &coScenario{}
@@ -736,6 +740,8 @@ func coParseScenario(line string) (*coScenario, error) {
 		switch k {
 		case "mr":
 			s.mr, err = strconv.Atoi(v)
+		case "strict":
+			s.strict = v == "1"
 		case "fails":
 			s.fails, err = strconv.Atoi(v)
 		case "ans":
@@ -815,6 +821,7 @@ func coRun(t *testing.T, s *coScenario) (gets int, probe string, bad string, clo
 		synctest.Test(t, func(t *testing.T) {
 			client := NewClient(&Implementation{Name: "verif", Version: "0"}, nil)
 			tr := &StreamableClientTransport{Endpoint: "http://verif.invalid/mcp", HTTPClient: &http.Client{Transport: sv}, MaxRetries: s.mr}
+			tr.strict = s.strict
 			ctx, cancel := context.WithCancel(context.Background())
 			defer cancel()
 			cs, err := client.Connect(ctx, tr, &ClientSessionOptions{ProtocolVersion: protocolVersion20251125})
@@ -893,6 +900,9 @@ func coGenerate(emit func(*coScenario)) {
 						continue
 					}
 					emit(&coScenario{mr: mr, fails: fails, code: code, sse: sse})
+					if fails <= 1 {
+						emit(&coScenario{mr: mr, fails: fails, code: code, sse: sse, strict: true})
+					}
 				}
 			}
 		}
@@ -903,7 +913,7 @@ func coGenerate(emit func(*coScenario)) {
 		if http.StatusText(c) == "" {
 			c = 200 + rng.Intn(7)
 		}
-		emit(&coScenario{mr: []int{0, 1, 2, 3, -1}[rng.Intn(5)], fails: rng.Intn(5), code: c, sse: rng.Intn(3) != 0})
+		emit(&coScenario{mr: []int{0, 1, 2, 3, -1}[rng.Intn(5)], fails: rng.Intn(5), code: c, sse: rng.Intn(3) != 0, strict: rng.Intn(3) == 0})
 	}
 }
 
